@@ -415,6 +415,12 @@ pub fn single_faults_near(spec: &DocSpec, first: u32) -> Vec<HFault> {
             out.push(HFault::Override { rev: ri, key: "Prev".into(), val: Val::Raw(b.to_string()) });
         }
         out.push(HFault::Override { rev: ri, key: "Prev".into(), val: Val::Raw("@xref".into()) });
+        // /Prev naming any other section of the file, older or newer: loops that close anywhere in the chain
+        for rj in 0..spec.revisions.len() {
+            if rj != ri {
+                out.push(HFault::Override { rev: ri, key: "Prev".into(), val: Val::Raw(format!("@xref:{}", rj)) });
+            }
+        }
         for &t in &targets {
             out.push(HFault::Override { rev: ri, key: "Root".into(), val: Val::Ref(t, 0) });
         }
